@@ -153,6 +153,63 @@ def run(ctx):
                       model_reqs=lambda c: driver.req("toverride", c[2], c[3], c[0]),
                       nontrivial=lambda c, r: '"57"' in r,   # the wrapper W occurs: the override fired
                       describe=lambda c: (repr(c[1])[:200], c[2], c[3]), bucket=lambda c, r: c[2] + "/" + c[3])
+    # every OCCURRENCE of a node is dispatched, also when one node OBJECT sits at several positions of the tree (hand-built trees, the output of a rewriter that
+    # inserts one replacement object at every use of an alias): a numbering override must number every occurrence, in document order
+    import dataclasses as _dc
+    def share(n, pool):
+        """the same tree with equal subtrees replaced by ONE shared object"""
+        if isinstance(n, list):
+            return [share(x, pool) for x in n]
+        if not _dc.is_dataclass(n):
+            return n
+        m = _dc.replace(n, **{f.name: share(getattr(n, f.name), pool) for f in _dc.fields(n) if _dc.is_dataclass(getattr(n, f.name)) or isinstance(getattr(n, f.name), list)})
+        try:
+            return pool.setdefault(enc(m), m)
+        except Exception:  # noqa
+            return m
+    def ref_number(n, k):
+        """independent reference: depth-first, fields in declaration order, lists in order; every Identifier occurrence gets the next number"""
+        if isinstance(n, list):
+            return [ref_number(x, k) for x in n]
+        if isinstance(n, ast.Identifier):
+            k[0] += 1
+            return ast.Identifier(n.name + str(k[0]), n.namespace)
+        if not _dc.is_dataclass(n):
+            return n
+        return _dc.replace(n, **{f.name: ref_number(getattr(n, f.name), k) for f in _dc.fields(n) if _dc.is_dataclass(getattr(n, f.name)) or isinstance(getattr(n, f.name), list)})
+    def real_number(n):
+        class Num(visitor.NodeTransformer):
+            def __init__(self):
+                self.k = 0
+            def visit_Identifier(self, m):
+                self.k += 1
+                return ast.Identifier(m.name + str(self.k), m.namespace)
+        return Num().visit(n)
+    occ_bad = []
+    price = ast.Identifier("price")
+    hand = [ast.BoolOp(ast.And(), ast.Compare(ast.Gt(), price, ast.Integer("1")), ast.Compare(ast.Lt(), price, ast.Integer("9"))),
+            ast.Compare(ast.Eq(), ast.BinOp(ast.Add(), price, price), ast.BinOp(ast.Mult(), price, price)), ast.List([price, price, price]),
+            ast.Call(ast.Identifier("concat"), [ast.Attribute(price, "a"), ast.Attribute(price, "a")])]
+    from odata_query.rewrite import AliasRewriter as _AR
+    for f in ["nm eq 'a' and tags/any(name: nm eq name) and nm ne null", "a add a eq a mul a", "x in (a, a, b, a)", "concat(a, a) eq a"]:
+        try:
+            hand.append(_AR({"nm": "name", "a": "z/w"}).visit(impl.real_parse_ast(f)))
+        except Exception:  # noqa
+            pass
+    occ_cases = hand + [share(nd, {}) for w, nd in uniq[:: max(1, len(uniq) // (600 if ctx.thorough else 150))]]
+    for t in occ_cases:
+        ctx.evaluations += 1
+        try:
+            got = enc(real_number(t)); want = enc(ref_number(t, [0]))
+        except RecursionError:
+            continue
+        except Exception as e:  # noqa
+            occ_bad.append((t, "raised " + type(e).__name__, "")); continue
+        if got != want:
+            occ_bad.append((t, got, want))
+    ctx.note(f"occurrence numbering on {len(occ_cases)} trees with shared node objects: {len(occ_bad)} differ from the document-order reference")
+    if occ_bad:
+        ctx.broken.append(f"a numbering override does not reach every occurrence in document order on {len(occ_bad)} trees with shared node objects; first: {occ_bad[0][0]!r}"[:500])
     # handlers attached AFTER the class (or another instance of it) has already been used: on an instance (`v.visit_K = fn`, the idiom the
     # library's own tests use) and on the class; and the reverse order (an instrumented instance first, a plain one afterwards)
     def seq_override(c):
@@ -230,6 +287,9 @@ def run(ctx):
 
     def search(ctx):
         found = []
+        for t, got, want in occ_bad[:10]:
+            found.append({"property": "C16", "tree_with_shared_node_objects": repr(t)[:600], "numbering_transformer_result": got[:600], "document_order_reference": want[:600],
+                          "why": "a transformer override is not dispatched for every occurrence of a node (one node object at several positions)", "signature": "C16:occurrence"})
         for (name, c, r, m) in ctx.diffs[:400]:
             if name == "visit-trace":
                 spec = driver.run_batch([driver.req("preorder", c[0])])[0]
@@ -260,6 +320,8 @@ def run(ctx):
                 if r != want:
                     found.append({"property": "C16", "left": repr(c[1]), "right": repr(c[3]), "real_eq": r, "structurally_identical": want,
                                   "why": "== disagrees with structural identity", "signature": "C16:eq"})
+            elif name == "non-mutation" and False:
+                pass
             elif name == "non-mutation":
                 if r != "unchanged":
                     found.append({"property": "C16", "visitor": c[0], "input_before": repr(c[2])[:1500], "why": "a traversal modified the tree it was given (value, instance state of a node, or what a later traversal of the same object does)",
